@@ -234,6 +234,61 @@ def grammar_rule(P: Project, R: Report, module: str, rule: str, label: str) -> i
     return n
 
 
+def blank_line_resets_event(P: Project, R: Report, module: str, rule: str) -> int:
+    """In every SSE line recogniser: the variable an `event:` line sets is reset on every path through the blank-line
+    arm (the end of an event), whether or not the event had data.  Otherwise the name of a data-less event
+    (`event: ping` + blank line) is taken for the type of the next one, which is then not delivered."""
+    n = 0
+    for f, head in recognisers(P, module):
+        arms = chain_arms(head)
+        ev_targets = set()
+        line_var = None
+        for a in arms:
+            t = a.test
+            if isinstance(t, ast.Call) and call_name(t).endswith(".startswith") and t.args and isinstance(t.args[0], ast.Constant) and isinstance(t.func.value, ast.Name):
+                line_var = line_var or t.func.value.id
+                if str(t.args[0].value).strip() == "event:":
+                    for s_ in walk_local(ast.Module(body=a.body, type_ignores=[])):
+                        if isinstance(s_, ast.Assign) and len(s_.targets) == 1:
+                            ev_targets.add(ast.unparse(s_.targets[0]))
+        if not ev_targets or line_var is None:
+            continue
+        # the blank-line arm: `if not line:` body / `if line: … else:` orelse / `if line == "":` body, around or beside the chain
+        blank = None
+        for x in walk_local(f.node):
+            if not isinstance(x, ast.If):
+                continue
+            tt = ast.unparse(x.test)
+            if tt in (f"not {line_var}", f"{line_var} == ''", f"len({line_var}) == 0"):
+                blank = x.body
+            elif tt == line_var and x.orelse:
+                blank = x.orelse
+            if blank is not None:
+                break
+        if blank is None:
+            raise AnalysisError(f"{f.module.rel}: {f.qual} sets the event name from `event:` lines but its blank-line handling is written in a shape this rule cannot read")
+        for E in sorted(ev_targets):
+            def sev(stmt, st, an, E=E):
+                if isinstance(stmt, ast.Assign):
+                    for t_ in stmt.targets:
+                        pairs = [(t_, stmt.value)]
+                        if isinstance(t_, ast.Tuple) and isinstance(stmt.value, ast.Tuple) and len(t_.elts) == len(stmt.value.elts):
+                            pairs = list(zip(t_.elts, stmt.value.elts))
+                        for tt_, v in pairs:
+                            if ast.unparse(tt_) == E:
+                                return "reset" if isinstance(v, ast.Constant) and v.value in (None, "") else "set"
+                return None
+
+            ba, bo = run_paths(ast.Module(body=blank, type_ignores=[]), stmt_event_of=sev, fallible=False)
+            ends = list(bo.normal) + list(bo.cont) + [st for st, _n in bo.ret]
+            bad = [st for st in ends if not st.events or st.events[-1] != "reset"]
+            n += 1
+            R.ob(rule, f"{f.qual}: a blank line resets the pending event name `{E}` on every path", not bad, f"{f.module.rel}:{blank[0].lineno}",
+                 f"a path through the blank-line handling leaves `{E}` as it was (under {sorted(l[:50] for l in bad[0].lits)[:4] if bad else ''}): the name of an event that carried no data is applied to the next event, which is then dropped as an unknown type",
+                 sample=f"{rule} {f.qual}: blank line → {E} = None on all {len(ends)} paths")
+    return n
+
+
 def _slice(stmts, names):
     """The statements that mention one of `names`, with the control structure around them."""
     out = []
@@ -584,6 +639,9 @@ def check(P: Project, R: Report) -> None:
                 needs_event = "current_event and" in t or t.startswith("current_event")
                 R.ob("R2", f"{f.qual}: an event without an event field is dispatched (default type message)", not needs_event, f"{f.module.rel}:{n.lineno}",
                      f"dispatch is conditional on `{t}`: data-only events — the default `message` type of the event-stream format — are dropped")
+
+    # a blank line ends the event: whatever name an `event:` line set does not survive it, dispatched or not
+    blank_line_resets_event(P, R, A.MOD_HTTP, "R2")
 
     # chunk- and terminator-independence of the two http recognisers
     from . import _chunks
